@@ -1107,3 +1107,61 @@ def run_b24(chk, repo):
                               'gets an ALAG1 assignment that is not wanted'), line=tests[0].line,
                           witness='add_lag_time twice (or on a model that defines ALAG1 itself): the model has lag_time=MDT '
                                   'with its theta, the code has no ALAG1')
+
+
+def run_b25(chk, repo):
+    """B25: pk_param_conversion renames the general-linear micro-constants Kij (ADVAN5/7) from the old to the new compartment
+    numbering in a loop over (source i, destination j). oldmap holds every compartment plus OUTPUT (n + 1 entries): the source
+    index must run over all n compartments, 1 .. len(oldmap) - 1, i.e. the stop of its range is len(oldmap); the destination
+    index runs over 0 .. len(oldmap) - 1. A shorter source range leaves the rate constants of the last compartment stale."""
+    import sympy
+    B25 = chk.rule('B25', 'pk_param_conversion: the Kij rename loop visits every old compartment as source (range stop = '
+                          'len(oldmap)) and 0..n as destination', floor=2)
+    um = repo.module('pharmpy.model.external.nonmem.update')
+    f = um.functions.get('pk_param_conversion')
+    if f is None:
+        raise AnalysisError('B25: pk_param_conversion not found')
+    defs = {}
+    for a_ in ast.walk(f.node):
+        if isinstance(a_, ast.Assign) and len(a_.targets) == 1 and isinstance(a_.targets[0], ast.Name):
+            defs.setdefault(a_.targets[0].id, []).append(a_.value)
+
+    def norm(e, depth=0):
+        """the stop expression as a sympy polynomial in L = len(<map with OUTPUT>)"""
+        if isinstance(e, ast.Constant) and isinstance(e.value, int):
+            return sympy.Integer(e.value)
+        if isinstance(e, ast.Call) and dotted(e.func) == 'len' and len(e.args) == 1:
+            return sympy.Symbol('len_' + unparse(e.args[0]))
+        if isinstance(e, ast.BinOp) and isinstance(e.op, (ast.Add, ast.Sub)):
+            l_, r_ = norm(e.left, depth), norm(e.right, depth)
+            if l_ is None or r_ is None:
+                return None
+            return l_ + r_ if isinstance(e.op, ast.Add) else l_ - r_
+        if isinstance(e, ast.Name) and len(defs.get(e.id, [])) == 1 and depth < 4:
+            return norm(defs[e.id][0], depth + 1)
+        return None
+    loops = []
+    for L in ast.walk(f.node):
+        if isinstance(L, ast.For) and isinstance(L.target, ast.Tuple) and len(L.target.elts) == 2 \
+                and isinstance(L.iter, ast.Call) and (dotted(L.iter.func) or '').split('.')[-1] == 'product' and len(L.iter.args) == 2 \
+                and all(isinstance(r_, ast.Call) and dotted(r_.func) == 'range' for r_ in L.iter.args) \
+                and any(isinstance(j_, ast.JoinedStr) and unparse(j_).startswith("f'K{") for j_ in ast.walk(L)):
+            loops.append(L)
+    if not loops:
+        raise AnalysisError('B25: the product(range, range) loop that renames K{i}{j} was not found in pk_param_conversion')
+    for L in loops:
+        for role, r_, start_expected in (('source', L.iter.args[0], 1), ('destination', L.iter.args[1], 0)):
+            args = r_.args
+            start = norm(args[0]) if len(args) >= 2 else sympy.Integer(0)
+            stop = norm(args[1] if len(args) >= 2 else args[0])
+            if stop is None or start is None:
+                raise AnalysisError(f'B25: cannot normalise {unparse(r_)}')
+            syms = sorted(stop.free_symbols, key=str)
+            ok = len(syms) == 1 and stop - syms[0] == 0 and start == start_expected
+            chk.instance(B25, f'pk_param_conversion: {role} index in {unparse(r_)} = [{start}, {stop}): {ok}')
+            if not ok:
+                chk.violation(B25, um.rel, f.qualname, f'{role}: {unparse(r_)} = [{start}, {stop})',
+                              f'the {role} index does not cover every compartment of the old numbering (expected '
+                              f'[{start_expected}, len(oldmap)) with OUTPUT included in oldmap)', line=r_.lineno,
+                              witness='set_first_order_absorption; set_transit_compartments(2); add_peripheral_compartment; '
+                                      'set_transit_compartments(1): $PK keeps the stale K54 and omits K43')
